@@ -80,6 +80,14 @@ def gen(ctx, deep):
                             pre = [rng.choice(ops) for _ in range(rng.randint(0, 2))]
                             post = [rng.choice(ops) for _ in range(3)]
                             jobs.append((cfg, pre + [("setstore", st), ("load", k)] + post))
+            # a successful reload replaces policy AND links, also when the links lagged behind the (mirrored) policy before
+            # it: role assignments edited while automatic link building was off, the flag on again, then load_policy
+            gops = [o for o in ops if len(o) > 1 and o[1] == "g" and o[0] in ("add", "remove", "addmany", "removemany")]
+            for init in inits[:2]:
+                cfg = ec.Config(shape, adapter=True, watcher=None, initial=init, is_async=is_async)
+                for a in rng.sample(gops, min(len(gops), 6 if not deep else 12)):
+                    b = rng.choice(gops)
+                    jobs.append((cfg, [("autobuild", False), a, b, ("autobuild", True), ("load", None), rng.choice(ops)]))
     return jobs
 
 
